@@ -255,6 +255,44 @@ func runC19(c *engine.Ctx) {
 		}
 	}
 	c.Floor(n, 3)
+
+	// ---- R7 ----
+	checkConfigReadPerAttempt(c, "R7")
+}
+
+// checkConfigReadPerAttempt (C19.R7; the same obligation is part of C14.R5): the proxy and visitor configurations a new
+// control is started with are loaded from the service inside the login attempt that starts it, so a reload that
+// happened while the client was retrying is what gets registered.
+func checkConfigReadPerAttempt(c *engine.Ctx, rule string) {
+	c.Rule(rule, "the client's login attempt reads Service.proxyCfgs / visitorCfgs itself (in the function that calls Control.Run), never a snapshot taken before the retry loop")
+	n := 0
+	if lf := clientLoginLoop(c); lf != nil {
+		ctlRun := method(c, "client", "Control", "Run")
+		pcF := field(c, "client", "Service", "proxyCfgs")
+		vcF := field(c, "client", "Service", "visitorCfgs")
+		if ctlRun != nil && pcF != nil && vcF != nil {
+			for _, call := range engine.CallsToDeep(lf, ctlRun) {
+				n++
+				args := engine.CallArgs(call)
+				stale := ""
+				seen := 0
+				for i, fv := range []*types.Var{pcF, vcF} {
+					src := engine.Provenance(args[i+1], engine.ProvOpts{})
+					for v := range src.Values {
+						if lf, _ := engine.LoadedField(v); lf == fv {
+							seen++
+							if in, ok := v.(ssa.Instruction); ok && in.Parent() != call.Parent() {
+								stale = fv.Name() + " is read in " + c.P.FuncName(in.Parent()) + ", outside the login attempt that uses it"
+							}
+						}
+					}
+				}
+				c.Check(stale == "" && seen >= 2, c.P.FuncName(lf)+">config-read-per-attempt", call.Pos(), seen, nil,
+					"the configuration handed to the new control is read when the login succeeds %s", stale)
+			}
+		}
+	}
+	c.Floor(n, 1)
 }
 
 func checkPhaseStores(c *engine.Ctx) {
@@ -344,6 +382,9 @@ func checkPhaseStores(c *engine.Ctx) {
 					}
 				case "wait start":
 					h, k := healthOK(ps)
+					if !k {
+						h, k = engine.CallerAgree(p, f, true, healthOK) // the guard stayed in the caller of an extracted helper
+					}
 					if !(k && h) {
 						return "a registration is (re)sent on a path where the health flag was not found ok"
 					}
@@ -353,6 +394,9 @@ func checkPhaseStores(c *engine.Ctx) {
 					return "phase becomes 'wait start' from a phase that is not new / check failed / timed-out wait start / timed-out start error"
 				case "check failed":
 					h, k := healthOK(ps)
+					if !k {
+						h, k = engine.CallerAgree(p, f, true, healthOK)
+					}
 					if !(k && !h) {
 						return "the proxy is withdrawn on a path where the health flag was not found failed"
 					}
@@ -375,19 +419,45 @@ func checkHealthMonitor(c *engine.Ctx) {
 	if f == nil {
 		return
 	}
-	doCheck := method(c, "client/health", "Monitor", "doCheck")
 	failedF := field(c, "client/health", "Monitor", "failedTimes")
 	okF := field(c, "client/health", "Monitor", "statusOK")
 	maxF := field(c, "client/health", "Monitor", "maxFailedTimes")
 	normalF := field(c, "client/health", "Monitor", "statusNormalFn")
 	failF := field(c, "client/health", "Monitor", "statusFailedFn")
 	toF := field(c, "client/health", "Monitor", "timeout")
-	if doCheck == nil || failedF == nil || okF == nil || maxF == nil || normalF == nil || failF == nil || toF == nil {
+	if failedF == nil || okF == nil || maxF == nil || normalF == nil || failF == nil || toF == nil {
 		return
 	}
 	n := 0
-	for _, dc := range engine.CallsTo(f, doCheck) {
-		call := dc.(*ssa.Call)
+	// one iteration = from the creation of the probe's deadline context to the next one; the probe result is the error
+	// returned by whichever call received that context (doCheck on the confirmed tree, or the tcp/http probes when the
+	// dispatcher is inlined), or a sentinel error for an unknown probe type
+	var dls []*ssa.Call
+	engine.ForEachInstr(f, func(in ssa.Instruction) {
+		if call, ok := in.(*ssa.Call); ok {
+			if o := engine.CalleeObj(call); o != nil && o.Pkg() != nil && o.Pkg().Path() == "context" && (o.Name() == "WithDeadline" || o.Name() == "WithTimeout") {
+				dls = append(dls, call)
+			}
+		}
+	})
+	if len(dls) == 0 {
+		c.Violate("client/health.Monitor.checkWorker>deadline", f.Pos(), nil, "probes do not run under a context deadline")
+	}
+	for _, call := range dls {
+		call := call
+		usesCtx := func(v ssa.Value) bool {
+			pc, _ := engine.ResultOfCall(v)
+			if pc == nil || pc == call {
+				return false
+			}
+			for _, a := range pc.Call.Args {
+				if cc, i := engine.ResultOfCall(engine.Unwrap(a)); cc == call && i == 0 {
+					return true
+				}
+			}
+			return false
+		}
+		isProbe := func(v ssa.Value) bool { return usesCtx(v) || engine.IsSentinelError(v) }
 		n++
 		c.AllPaths("client/health.Monitor.checkWorker>counter", engine.PathCheck{Fn: f, From: call, KeepLoopFacts: true,
 			Sink: func(in ssa.Instruction) bool { return in == ssa.Instruction(call) },
@@ -413,7 +483,7 @@ func checkHealthMonitor(c *engine.Ctx) {
 				return ""
 			},
 			Pred: func(st *engine.PathState) string {
-				isNil, known := st.IsNil(func(v ssa.Value) bool { return v == ssa.Value(call) })
+				isNil, known := st.IsNil(isProbe)
 				if !known {
 					return "the probe result is not examined before the next probe"
 				}
@@ -467,14 +537,14 @@ func checkHealthMonitor(c *engine.Ctx) {
 			}}, "counter reset on success, incremented on failure, callbacks gated")
 		// deadline
 		n++
-		src := engine.Provenance(engine.CallArgs(call)[1], engine.ProvOpts{})
-		dl := false
-		for k := range src.Calls {
-			if k.Pkg() != nil && k.Pkg().Path() == "context" && (k.Name() == "WithDeadline" || k.Name() == "WithTimeout") {
-				dl = true
+		src := engine.Provenance(call.Call.Args[1], engine.ProvOpts{})
+		probes := 0
+		engine.ForEachInstr(f, func(in ssa.Instruction) {
+			if v, ok := in.(ssa.Value); ok && usesCtx(v) {
+				probes++
 			}
-		}
-		c.Check(dl && src.HasField(toF), "client/health.Monitor.checkWorker>deadline", call.Pos(), 2, []string{src.Summary()}, "each probe runs under a context deadline derived from the configured timeout")
+		})
+		c.Check(probes > 0 && src.HasField(toF), "client/health.Monitor.checkWorker>deadline", call.Pos(), 2, []string{src.Summary()}, "each probe runs under a context deadline derived from the configured timeout")
 	}
 	if hf := fn(c, "client/health.Monitor.doHTTPCheck"); hf != nil {
 		n++
